@@ -40,7 +40,11 @@ func ValidateToken(op TokenOptions, token string) error {
 		return errors.New("Token does not represent a valid macaroon")
 	}
 
-	caveats, err := mac.VerifySignature(op.ServerPrivateKey, nil)
+	if op.ServerPrivateKey == nil || op.ServerName == "" {
+		// nothing is ever issued under such options
+		return errors.New("Provided token was not issued by this server")
+	}
+	caveats, err := mac.VerifySignature(rootKey(op.ServerPrivateKey, op.ServerName), nil)
 	if err != nil {
 		return errors.New("Provided token was not issued by this server")
 	}
